@@ -174,10 +174,10 @@ fn scenario(kinds: &[Kind], m: usize, jitter: u64) -> ScenarioResult {
             res.inconclusive = Some("sibling did not finish its sends".into());
         }
     }
-    let w = rec::wait_quiescent(recv.tracer, total, crate::session::wd(Duration::from_secs(20)));
+    let w = rec::wait_quiescent_progress(recv.tracer, total, crate::session::wd(Duration::from_secs(20)), crate::session::wd(Duration::from_secs(600)));
     let complete = w == Wait::Idle;
     recv.send("stop");
-    let finished = rec::wait_finished(recv.tracer, crate::session::wd(Duration::from_secs(20)));
+    let finished = rec::wait_finished_progress(recv.tracer, crate::session::wd(Duration::from_secs(20)), crate::session::wd(Duration::from_secs(600)));
     for s in siblings.iter_mut() {
         s.finish();
     }
